@@ -228,15 +228,23 @@ Fixpoint fin_cbs (fuel : nat) (l : N) (sc : scn) : M :=
           end
       end
   end.
-Definition cb_fuel : nat := 64.
+(* the loops of _process_response_callbacks / _process_finished_callbacks: one more unit of fuel than
+   callbacks pending.  That is enough unless a callback re-registers a callback of its own kind (a
+   response callback adding a response callback, a finished callback adding a finished callback), in which
+   case the real loop does not terminate either; such scenarios are excluded by [valid_tree]. *)
+Definition resp_loop (l : N) (sc : scn) : M := fun st => resp_cbs (S (length (rq st))) l sc st.
+Definition fin_loop (l : N) (sc : scn) : M := fun st => fin_cbs (S (length (fq st))) l sc st.
 
-(* Router.invoke_request *)
+(* Router.invoke_request: the try body ... *)
+Definition invoke_chain (ev : bool) (l : N) (sc : scn) (tw : bool) (subrun : option M) : M :=
+  if tw then tween_chain ev l sc subrun else handle_request l sc subrun.
+Definition invoke_body (ev : bool) (l : N) (sc : scn) (tw : bool) (subrun : option M) : M :=
+  bind (invoke_chain ev l sc tw subrun) (fun r =>
+  seq (resp_loop l sc)
+  (seq (hit0 l sc P_NEWRESP) (ret r))).
+(* ... and finish_request in the finally clause *)
 Definition invoke_request (ev : bool) (l : N) (sc : scn) (tw : bool) (subrun : option M) : M :=
-  finally
-    (bind (if tw then tween_chain ev l sc subrun else handle_request l sc subrun) (fun r =>
-     seq (resp_cbs cb_fuel l sc)
-     (seq (hit0 l sc P_NEWRESP) (ret r))))
-    (fin_cbs cb_fuel l sc).
+  finally (invoke_body ev l sc tw subrun) (fin_loop l sc).
 
 (* the callback deques belong to the request object: fresh for a subrequest, the parent's afterwards *)
 Definition with_fresh_request (m : M) : M :=
@@ -272,17 +280,20 @@ Fixpoint is_prefix (a b : list N) : bool :=
 (* after the first event satisfying p, every event satisfies q *)
 Fixpoint from_first (p q : pev -> bool) (lg : list pev) : bool :=
   match lg with [] => true | e :: r => if p e then forallb q (e :: r) else from_first p q r end.
+Fixpoint before_first (p : pev -> bool) (lg : list pev) : list pev :=
+  match lg with [] => [] | e :: r => if p e then [] else e :: before_first p r end.
 Definition has_fault (sc : scn) (pt : N) : bool :=
   existsb (fun f => N.eqb (f_pt f) pt && negb (N.eqb (f_kind f) K_FALSE) && negb (N.eqb (f_kind f) 0)) (s_faults sc).
 
 (* one request (level l, scenario sc, through the tweens or not) *)
-Definition judge_level (l : N) (sc : scn) (tw : bool) (lg : list pev) : bool :=
-  let L := lvl_log l lg in
+Definition judge_own (l : N) (sc : scn) (tw : bool) (L : list pev) : bool :=
   let last_pt := if tw then P_OVER_OUT else P_RENDERER in
   let came_out := existsb (is_pt last_pt) L && negb (has_fault sc last_pt) in
   let fins := map e_aux (filter (is_pt P_FIN_CB) L) in
   let resps := map e_aux (filter (is_pt P_RESP_CB) L) in
   let nnew := length (filter (is_pt P_NEWRESP) L) in
+  (* response callbacks registered in time: before NewResponse is sent / the request is finished *)
+  let rregs := registered 0 (s_regs sc) (before_first (fun e => is_pt P_NEWRESP e || is_pt P_FIN_CB e) L) in
   (* the view (and the exception view) run with this request current *)
   forallb (fun e => negb (is_pt P_VIEW e || is_pt P_EXCVIEW e) || e_cur e) L
   (* finished callbacks: each registered one exactly once, in order, after everything else *)
@@ -291,10 +302,23 @@ Definition judge_level (l : N) (sc : scn) (tw : bool) (lg : list pev) : bool :=
   (* response callbacks then NewResponse, exactly when a response came out of the tween chain *)
   && (if came_out then
         if has_fault sc P_RESP_CB
-        then is_prefix resps (registered 0 (s_regs sc) L) && Nat.leb nnew 1
-        else list_eqb resps (registered 0 (s_regs sc) L) && Nat.eqb nnew 1
+        then is_prefix resps rregs && Nat.leb nnew 1
+        else list_eqb resps rregs && Nat.eqb nnew 1
              && from_first (is_pt P_NEWRESP) (fun e => is_pt P_NEWRESP e || is_pt P_FIN_CB e) L
       else match resps with [] => Nat.eqb nnew 0 | _ => false end).
+Definition judge_level (l : N) (sc : scn) (tw : bool) (lg : list pev) : bool :=
+  judge_own l sc tw (lvl_log l lg).
+
+(* scenarios the theorems quantify over (harness: valid()): a fault has a kind, "false/denied" only where a
+   predicate or the policy can say no, and no callback re-registers a callback of its own kind *)
+Definition valid_level (sc : scn) : bool :=
+  forallb (fun f => negb (N.eqb (f_kind f) 0) &&
+                    (negb (N.eqb (f_kind f) K_FALSE) || memN (f_pt f) [P_ROUTE_PRED; P_VIEW_PRED; P_PERMITS]))
+          (s_faults sc)
+  && forallb (fun r => negb (N.eqb (r_pt r) P_RESP_CB && N.testbit (r_which r) 0)
+                       && negb (N.eqb (r_pt r) P_FIN_CB && N.testbit (r_which r) 1)) (s_regs sc).
+Fixpoint valid_tree (sc : scn) : bool :=
+  valid_level sc && match s_sub sc with NoSub => true | Sub _ sc' => valid_tree sc' end.
 
 Fixpoint judge_tree (l : N) (sc : scn) (tw : bool) (lg : list pev) : bool :=
   judge_level l sc tw lg &&
@@ -337,6 +361,43 @@ Definition put_ev (e : pev) : val := VL [vN (e_pt e); vN (e_lvl e); vN (e_depth 
 Definition put_res (r : res) : val :=
   match r with Ok v => VL [VI 0; vN v] | Ex k => VL [VI 1; vN k] end.
 
+(* ---- scope cases: the entry points analysed in part (a), observed as
+   (exit kind 0 return / 1 raise, frames popped from the caller's stack, frames left pushed) *)
+(* entry = (program, class, mark of the inner moment, frame expected on top at that moment) *)
+Definition scope_table : list (stmt * N * (N * N)) :=
+  [(prog_get_root, 1, (mk_rootfactory, tag_request_context));
+   (prog_prepare, 1, (mk_rootfactory, tag_request_context));
+   (prog_get_root_closer, 2, (0, 0)); (prog_prepare_closer, 2, (0, 0));
+   (prog_prepare_with, 0, (mk_rootfactory, tag_request_context));
+   (prog_cfg_commit, 0, (mk_body, tag_configurator)); (prog_cfg_action, 0, (mk_body, tag_configurator));
+   (prog_cfg_include, 0, (mk_body, tag_configurator)); (prog_cfg_make_wsgi_app, 0, (mk_body, tag_configurator));
+   (prog_cfg_route_prefix, 0, (mk_body, tag_configurator)); (prog_cfg_with, 0, (mk_body, tag_configurator));
+   (prog_exception_view, 0, (mk_excview, tag_exception_view));
+   (prog_subrequest, 0, (mk_handle, tag_request_context));
+   (prog_request_context_manual, 0, (mk_body, tag_request_context));
+   (prog_wsgi_call, 0, (mk_handle, tag_request_context))].
+Definition sc_prog (e : stmt * N * (N * N)) : stmt := fst (fst e).
+Definition sc_cls (e : stmt * N * (N * N)) : N := snd (fst e).
+(* inner: 2 = the inner moment is not on this path, 1 = it happens under the expected frame, 0 = it does not *)
+Definition inner_obs (mt : N * N) (su : summ) : N :=
+  if negb (memN (fst mt) (marks su)) then 2
+  else if mark_top_c (fst mt) (snd mt) su then 1 else 0.
+Definition path_obs (mt : N * N) (su : summ) : N * N * N * N :=
+  (match kind_of su with KExc => 1 | _ => 0 end, N.of_nat (fst (eff_of su)),
+   N.of_nat (length (snd (eff_of su))), inner_obs mt su).
+Definition scope_paths (e : stmt * N * (N * N)) : list (N * N * N * N) :=
+  match analyse (sc_prog e) with Some L => map (path_obs (snd e)) L | None => [] end.
+(* class 0: balanced; 1: acquires exactly one frame on return and nothing on raise; 2: releases one frame;
+   in every class the inner moment (root factory, body, view) runs under the frame of its scope *)
+Definition scope_spec (cls : N) (o : N * N * N * N) : bool :=
+  match o with (k, pops, pushed, inner) =>
+    negb (N.eqb inner 0) &&
+    if N.eqb cls 0 then N.eqb pops 0 && N.eqb pushed 0
+    else if N.eqb cls 1 then N.eqb pops 0 && N.eqb pushed (if N.eqb k 1 then 0 else 1)
+    else N.eqb pops 1 && N.eqb pushed 0
+  end.
+Definition put_path (o : N * N * N * N) : val := match o with (k, a, b, c) => VL [vN k; vN a; vN b; vN c] end.
+
 (* case = [excview registered; scenario; [] | [depth; log] observed on the implementation]
    answer = [model outcome; model final depth; model log; judge of the model run; [] | [judge of the observation]] *)
 Definition run_C13 (v : val) : val :=
@@ -352,5 +413,15 @@ Definition run_C13 (v : val) : val :=
                                     Some (VL [vbool (judge sc od ol)])
                    | _ => None end in
         Some (VL [put_res r; vN d; vlist put_ev (log st); vbool (judge sc d (log st)); jo])
+    | VL [idx; ob] =>
+        olet idx := get_nat idx in
+        olet pc := nth_error scope_table idx in
+        olet jo := match ob with
+                   | VL [] => Some (VL [])
+                   | VL [k; a; b; c] =>
+                       olet k := get_N k in olet a := get_N a in olet b := get_N b in olet c := get_N c in
+                       Some (VL [vbool (scope_spec (sc_cls pc) (k, a, b, c))])
+                   | _ => None end in
+        Some (VL [vlist put_path (scope_paths pc); vN (sc_cls pc); jo])
     | _ => None
     end).
